@@ -238,6 +238,12 @@ func (r *aggregatorRole) ProcessTemplates(workflowRepo repos.IRepo, loadSubworkf
 		r.Enabled = "false"
 	}
 
+	// An aggregator with no critical role below it never receives a state update and has
+	// no opinion on the state: it must not feed its initial STANDBY into its parent's aggregate.
+	if !r.IsCritical() {
+		r.state.merge(sm.INVARIANT, r)
+	}
+
 	return
 }
 
